@@ -8,11 +8,10 @@ use std::sync::atomic::{AtomicBool, AtomicUsize, Ordering};
 use std::sync::{Arc, RwLock};
 
 pub use crate::bitvec::{BitVec, BitVecMut};
-pub use crate::disk_store::file_writer::{
-    BlobWriter, FileBlobWriter, VersionedChecksummedBlobWriter,
+pub use crate::disk_store::verif_exports::{
+    BlobWriter, FileBlobWriter, PartitionSegment, VersionedChecksummedBlobWriter,
 };
 pub use crate::disk_store::meta_store::{MetaStore, PartitionMetadata, SubpartitionMetadata};
-pub use crate::disk_store::partition_segment::PartitionSegment;
 pub use crate::disk_store::wal_segment::WalSegment;
 pub use crate::engine::data_types::{BasicType, EncodingType};
 pub use crate::mem_store::codec::{Codec, CodecOp};
